@@ -143,6 +143,8 @@ def common_knobs(rng, plan, buggify=True):
     kn["deny_mmap"] = 1 if (buggify and rng.random() < 0.12) else 0
     if buggify and rng.random() < 0.2:
         kn["stale_dwerr"] = 1
+    if buggify and rng.random() < 0.15:
+        kn["dropq_busy"] = 1        # a query may be destroyed while its result sets are live
     kn["watchdog_s"] = 5
     kn["baseline_watchdog_s"] = 3
 
@@ -566,7 +568,7 @@ def gen_history(rng, profile, faults=False, sweep=False, hostile=False, reuse=Fa
                     st, _ = task_steps(b, c, q, i, rng.choice([None, None, 2]))
                     b.scripts[c] += st
         # lifecycle noise: drop and re-create shared objects in mid-history
-        for _ in range(rng.choice([0, 0, 1, 2])):
+        for _ in range(rng.choice([0, 0, 1, 2]) + (1 if plan["knobs"].get("dropq_busy") else 0)):
             c = rng.randrange(nclients)
             k = rng.random()
             pos = rng.randint(0, len(b.scripts[c]))
@@ -584,6 +586,9 @@ def gen_history(rng, profile, faults=False, sweep=False, hostile=False, reuse=Fa
                 if rng.random() < 0.7:
                     b.scripts[c].insert(min(len(b.scripts[c]), pos + rng.randint(1, 6)),
                                         P.step(c, "DROPV", v))
+            elif plan["knobs"].get("dropq_busy") and runnable and rng.random() < 0.7:
+                qd = rng.choice(runnable)[0]
+                b.scripts[c].insert(pos, P.step(c, "DROPQ", qd))
             elif decoys:
                 dq = b.q()
                 b.scripts[c].insert(pos, parse_step(c, dq, rng.choice(decoys)))
